@@ -70,6 +70,32 @@ def stream_case(rng):
     return {"steps": steps, "env": gen.ENV}
 
 
+def whole_doc_case(rng):
+    """a WHOLE other document as the referenced subtree ({$match: pat} without $path), where that document evaluates
+    references of its own: inside the host they resolve against the HOST's document, inside the target against the
+    target's - and the target document is emitted exactly as if nobody had referenced it, wherever it stands"""
+    k1, k2 = rng.sample(["b", "c", "d", "e"], 2)
+    tmpl = {"id": "tmpl", k1: {"x": 1, "$merge": k2}, k2: {"y": 2}}
+    if rng.random() < 0.4:
+        tmpl["deep"] = {"n": {"$merge": k2, "z": 0}}
+    if rng.random() < 0.3:
+        tmpl[k1] = {"$replace": k2}
+    kind = rng.choice(["$replace", "$replace", "$merge"])
+    ref = {"$match": {"id": "tmpl"}}
+    if kind == "$merge":
+        hostv = rng.choice([[{"$merge": ref}, "own"], {"$merge": ref, "own": 1}])
+    else:
+        hostv = rng.choice([{"$replace": ref}, {"$replace": ref, "ignored": 1}])
+    host = {"h": hostv, k2: {"y": 5}}
+    if rng.random() < 0.3:
+        host[k1] = "host-side"
+    docs = [host, tmpl] if rng.random() < 0.6 else [tmpl, host]
+    if rng.random() < 0.3:
+        docs.append({"again": {"$replace": {"$match": {"id": "tmpl"}}}, k2: {"y": 9}})
+    steps = [{"merge": {"id": f"D{i}", "parents": [], "data": d}} for i, d in enumerate(docs)] + [{"docs": True}, {"outdocs": True}, {"docs": True}]
+    return {"steps": steps, "env": gen.ENV}
+
+
 def dotted_key_case(rng):
     """a map holding BOTH a nested path and a key whose text is that path joined with dots (or only one of the two):
     a reference walks segments, a dotted key is reachable only as one list element"""
@@ -114,6 +140,8 @@ def dotted_key_case(rng):
 def gen_case(rng):
     if rng.random() < 0.08:
         return dotted_key_case(rng)
+    if rng.random() < 0.06:
+        return whole_doc_case(rng)
     if rng.random() < 0.3:
         return stream_case(rng)
     doc = gen.eval_doc(rng, W, depth=rng.randint(2, 4), nfeat=(1, 3))
